@@ -887,6 +887,10 @@ func (w *world) bridgerAddr(id int) (sdk.AccAddress, bool) {
 	if id >= bridgerBase && id < bridgerBase+len(w.bridgers) {
 		return w.bridgers[id-bridgerBase], true
 	}
+	// round 4: an ORACLE account used where a bridger is expected (a claim signed with the oracle key itself)
+	if id >= oracleBase && id < oracleBase+len(w.oracles) {
+		return w.oracles[id-oracleBase], true
+	}
 	return nil, false
 }
 
@@ -1649,6 +1653,13 @@ func (w *world) randomClaim() {
 			n = r.lastEff + 1
 			w.out.Count("claim:through-former-bridger")
 		}
+	}
+	// the oracle's OWN account in the bridger field (not its registered bridger), with the nonce that would be accepted
+	if len(regs) > 0 && w.rng.Intn(20) == 0 {
+		r := regs[w.rng.Intn(len(regs))]
+		inner = r.id
+		n = r.lastEff + 1
+		w.out.Count("claim:with-the-oracle-account-as-bridger")
 	}
 	if n == 0 {
 		n = 1
